@@ -127,6 +127,9 @@ int main(int argc, char **argv)
     std::vector<uint8_t> fail_tape;
     std::string fail_key, fail_msg;
     auto t0 = std::chrono::steady_clock::now();
+    auto tfail = t0;
+    const double shrink_allowance = 25.0;
+    const std::string early_fail = std::string(outdir) + "/worker-" + std::to_string(worker) + ".fail.tape";
     const unsigned runflags = flags & (VP_THOROUGH | VP_NO_EXCLUDE);
 
     using Tape = std::vector<uint8_t>;
@@ -163,6 +166,12 @@ int main(int argc, char **argv)
         if (!failed && budget > 0) {
             double el = std::chrono::duration<double>(std::chrono::steady_clock::now() - t0).count();
             if (el > budget) { st.skipped_budget++; return; }
+        }
+        if (failed) {
+            // in-process shrinking is bounded in time: once the allowance is used up every further candidate
+            // "passes", which ends rapidcheck's shrink loop; the out-of-process minimiser carries on from there
+            double el = std::chrono::duration<double>(std::chrono::steady_clock::now() - tfail).count();
+            if (el > shrink_allowance) return;
         }
         if (curfd >= 0) {
             if (pwrite(curfd, tape.data(), tape.size(), 0) < 0) {}
@@ -203,8 +212,12 @@ int main(int argc, char **argv)
         }
         free(rep.render);
         if (r == 1) {
+            if (!failed) tfail = std::chrono::steady_clock::now();
             failed = true;
             fail_tape = tape; fail_key = rep.key; fail_msg = rep.msg;
+            // kept up to date while shrinking, so that a worker killed in mid-shrink still leaves its best tape
+            write_file(early_fail + ".tmp", fail_tape.data(), fail_tape.size());
+            rename((early_fail + ".tmp").c_str(), early_fail.c_str());
             RC_FAIL(std::string(rep.key) + ": " + rep.msg);
         }
     });
